@@ -75,7 +75,29 @@ def fmt_items(items):
 
 MUT_NO_READ = {"new", "lit", "attach", "copy", "ptr", "fill", "cap", "assign", "clear", "detach", "cstr", "resize",
                "reserve", "fillfrom", "appendS", "append", "appendC", "prependS", "prepend", "substr", "join",
-               "prependX", "appendX", "printf", "appendA", "prependA"}
+               "prependX", "appendX", "printf", "appendA", "prependA",
+               "plusEqS", "plusEqC", "plus", "plusLit", "fromCStr", "fromCStrN", "fromBool", "fromInt", "fromInt64",
+               "fromUInt", "fromUInt64", "fromPrintf", "substr1", "capacity", "isEmpty"}
+STATIC2 = {"sCompare", "sCompareIC", "sFind", "sFindOneOf", "sFindLast", "sFindLastOf", "sCompareN", "sCompareICN"}
+STATIC = STATIC2 | {"sLength", "sFindC", "sFindLastC", "sStartsWith", "isSpace", "toLowerC", "toUpperC", "ctype"}
+OPERAND_OPS = ("compare", "compareN", "compareIC", "compareICN", "eq", "eqIC", "startsWith", "endsWith",
+               "ne", "lt", "le", "gt", "ge", "eqICN")
+PUNCT = set(b"!\"#$%&'()*+,-./:;<=>?@[\\]^_`{|}~")
+
+
+def ctype(k, c):
+    up, lo, dg = 65 <= c <= 90, 97 <= c <= 122, 48 <= c <= 57
+    return {"alnum": up or lo or dg, "alpha": up or lo, "digit": dg, "lower": lo, "upper": up,
+            "print": 32 <= c <= 126, "punct": c in PUNCT,
+            "xdigit": dg or 65 <= c <= 70 or 97 <= c <= 102}[k]
+
+
+def dedup(toks):
+    out = []
+    for x in toks:
+        if x not in out:
+            out.append(x)
+    return out
 
 
 class Ref:
@@ -92,6 +114,8 @@ class Ref:
         op = t[0]
         if op in MUT_NO_READ or op == "reset":
             return False
+        if op in STATIC:
+            return op == "sStartsWith" and not t[2].startswith("x") and None in self.v[int(t[2])]
         if op == "tokenS" and int(t[4]) > len(self.v[int(t[2])]):
             return True      # token(const char*, start): start <= length() is the caller's duty
         vs = [int(t[1])]
@@ -99,7 +123,7 @@ class Ref:
             vs += [int(t[2]), int(t[3])]
         elif op in ("tokenC", "tokenS"):
             vs = [int(t[2])]
-        elif op in ("compare", "compareN", "compareIC", "compareICN", "eq", "eqIC", "startsWith", "endsWith") and not t[2].startswith("x"):
+        elif op in OPERAND_OPS and not t[2].startswith("x"):
             vs.append(int(t[2]))
         return any(None in self.v[x] for x in vs)
 
@@ -111,9 +135,39 @@ class Ref:
         if op == "reset":
             self.__init__()
             return self.obs(res)
+        if op in STATIC:
+            return self.obs(self.static(t))
         v = int(t[1])
         a = V[v]
         if op == "new" or op == "clear" or op == "cap": V[v] = []
+        elif op == "plusEqS": V[v] = a + list(V[int(t[2])])
+        elif op == "plusEqC": V[v] = a + [int(t[2])]
+        elif op == "plus": V[v] = list(V[int(t[2])]) + list(V[int(t[3])])
+        elif op == "plusLit": V[v] = list(V[int(t[2])]) + list(REGS[int(t[3])][:-1])
+        elif op == "fromCStr": V[v] = cpart(unhex(t[2]))
+        elif op == "fromCStrN": V[v] = unhex(t[2])
+        elif op == "fromBool": V[v] = list(b"true" if t[2] == "1" else b"false")
+        elif op in ("fromInt", "fromInt64", "fromUInt", "fromUInt64"): V[v] = list(str(int(t[2])).encode())
+        elif op == "fromPrintf": V[v] = fmt_items(t[2:])
+        elif op == "substr1": V[v] = self.substr(V[int(t[2])], int(t[3]), -1)
+        elif op == "attachA":
+            if int(t[2]) + int(t[3]) > len(a): return "bad-op"
+            V[v] = a[int(t[2]):int(t[2]) + int(t[3])]
+        elif op == "printfA":
+            out = unhex(t[2]) + cpart(a) + unhex(t[3])
+            V[v] = out
+            res = str(len(out))
+        elif op == "capacity": res = f">={len(a)}"       # policy: 0 (not exclusively owned) or at least length()
+        elif op == "isEmpty": res = "1" if not a else "0"
+        elif op == "ne": res = "1" if a != self.operand(t[2]) else "0"
+        elif op == "eqLit": res = "1" if a == list(REGS[int(t[2])][:-1]) else "0"
+        elif op == "neLit": res = "1" if a != list(REGS[int(t[2])][:-1]) else "0"
+        elif op in ("lt", "le", "gt", "ge"):
+            r = cdiff(a, self.operand(t[2]))
+            res = "1" if {"lt": r < 0, "le": r <= 0, "gt": r > 0, "ge": r >= 0}[op] else "0"
+        elif op == "eqICN":
+            b = self.operand(t[2])
+            res = "1" if cdiff([lower(x) for x in a], [lower(x) for x in b], int(t[3])) == 0 else "0"
         elif op == "lit": V[v] = list(REGS[int(t[2])][:-1])
         elif op == "attach": V[v] = list(REGS[int(t[2])][int(t[3]):int(t[3]) + int(t[4])])
         elif op in ("copy", "assign"): V[v] = list(V[int(t[2])])
@@ -151,8 +205,8 @@ class Ref:
             V[v] = [upper(b) for b in a[:k]] + a[k:]
         elif op == "substr":
             V[v] = self.substr(V[int(t[2])], int(t[3]), int(t[4]))
-        elif op == "trim":
-            chars = set(unhex(t[2])) | {0}
+        elif op in ("trim", "trimD"):
+            chars = set(unhex(t[2]) if op == "trim" else [32, 9, 13, 10, 11]) | {0}
             i, j = 0, len(a)
             while i < j and a[i] in chars: i += 1
             while j > i and a[j - 1] in chars: j -= 1
@@ -183,9 +237,9 @@ class Ref:
             else:
                 V[v] = self.substr(src, start, -1)
                 res = str(len(src))
-        elif op == "split":
+        elif op in ("split", "splitD", "splitSet"):
             seps = unhex(t[2])
-            skip = int(t[3]) != 0
+            skip = True if op == "splitD" else int(t[3]) != 0
             cs = cpart(a)
             toks, cur = [], []
             for b in cs:
@@ -197,7 +251,10 @@ class Ref:
             toks.append(cur + a[len(cs):])
             if skip:
                 toks = [x for x in toks if x]
-            self.toks = toks
+            if op == "splitSet":
+                toks = dedup(toks)
+            else:
+                self.toks = toks
             res = " ".join([str(len(toks))] + [hexs(x) for x in toks])
         elif op == "join":
             out = []
@@ -268,6 +325,35 @@ class Ref:
             return "bad-op"
         return self.obs(res)
 
+    def static(self, t):
+        op = t[0]
+        if op in ("isSpace", "toLowerC", "toUpperC"):
+            c = int(t[1])
+            if op == "isSpace": return "1" if (9 <= c <= 13 or c == 32) else "0"
+            return str(lower(c) if op == "toLowerC" else upper(c))
+        if op == "ctype":
+            return "1" if ctype(t[1], int(t[2])) else "0"
+        a = unhex(t[1])
+        if op == "sLength": return str(len(a))
+        if op == "sFindC": return str(bytes(a).find(bytes([int(t[2])])) if int(t[2]) else -1)
+        if op == "sFindLastC": return str(bytes(a).rfind(bytes([int(t[2])])) if int(t[2]) else -1)
+        if op == "sStartsWith":
+            b = self.operand(t[2])
+            ain = a + [0]
+            for i in range(len(b)):
+                if ain[i] == 0 or ain[i] != b[i]:
+                    return "1" if ain[i] == b[i] else "0"
+            return "1"
+        b = unhex(t[2])
+        if op == "sCompare": return str(cdiff(a, b))
+        if op == "sCompareN": return str(cdiff(a, b, int(t[3])))
+        if op == "sCompareIC": return str(cdiff([lower(x) for x in a], [lower(x) for x in b]))
+        if op == "sCompareICN": return str(cdiff([lower(x) for x in a], [lower(x) for x in b], int(t[3])))
+        if op == "sFind": return str(bytes(a).find(bytes(b)))
+        if op == "sFindLast": return str(bytes(a).rfind(bytes(b)))
+        if op == "sFindOneOf": return str(min([i for i, x in enumerate(a) if x in b], default=-1))
+        return str(max([i for i, x in enumerate(a) if x in b], default=-1))
+
     @staticmethod
     def substr(a, start, length):
         n = len(a)
@@ -308,7 +394,10 @@ def ref_eq(impl, ref):
         return False
     ires, irest = impl.split(" ; ", 1)
     rres, rrest = ref.split(" ; ", 1)
-    if ires != rres:
+    if rres.startswith(">="):
+        if not ires.isdigit() or not (int(ires) == 0 or int(ires) >= int(rres[2:])):
+            return False
+    elif ires != rres:
         return False
     ivars, iregs = irest.split(" # ")
     if iregs != REGHEX:
@@ -368,6 +457,8 @@ MORE_OPS = [
     "tokenC 1 0 47 0", "tokenS 1 0 2f20 1", "split 0 2f 0", "split 0 20 1", "join 0 32", "join 1 47", "replaceS 0 1 1", "replaceS 0 0 0",
     "printf 0 L61 D-5", "assign 2 0", "appendS 1 0", "prependS 1 0", "clear 1", "attach 1 2 1 2", "lit 1 1", "trim 1 20",
     "compare 0 1", "eq 0 1", "findLastS 0 -", "hash 0", "toBool 0", "prependA 0 0 1", "prependA 0 1 2",
+    "plusEqS 0 0", "plusEqS 0 1", "plusEqC 0 32", "plus 0 0 1", "plus 1 0 0", "plusLit 0 0 0", "fromCStr 0 612f", "fromBool 1 0",
+    "fromInt 0 -12", "fromPrintf 0 L2f S6162", "trimD 0", "substr1 1 0 1", "capacity 0", "splitSet 0 2f 0",
 ]
 
 
@@ -399,6 +490,17 @@ def query_histories(subj_len, arg_len, holders):
                 for a in chunk:
                     for q in QUERY1:
                         h.append(f"{q} {target} x{a}")
+                    for q in ("ne", "lt", "le", "gt", "ge"):
+                        h.append(f"{q} {target} x{a}")
+                    h.append(f"eqICN {target} x{a} {max(1, n)}")
+                    if subj != "-" or True:
+                        h.append(f"sStartsWith {subj} x{a}")
+                    if "00" not in (subj, a):
+                        for q in sorted(STATIC2 - {"sCompareN", "sCompareICN"}):
+                            h.append(f"{q} {subj} {a}")
+                        h.append(f"sCompareN {subj} {a} {len(unhex(a))}")
+                        h.append(f"sCompareICN {subj} {a} {max(0, n - 1)}")
+                    h.append(f"splitSet {target} {a} 0")
                     h.append(f"compareN {target} x{a} {len(unhex(a))}")
                     h.append(f"compareICN {target} x{a} {max(0, n - 1)}")
                     for q in QUERYS:
@@ -420,7 +522,12 @@ def query_histories(subj_len, arg_len, holders):
                 for st in range(0, n + 2):
                     h += [f"findCFrom {target} {c} {st}", f"tokenC 2 {target} {c} {st}"]
                 h += [f"assign 2 {target}", f"replaceC 2 {c} 98"]
-            h += [f"hash {target}", f"toBool {target}", f"assign 2 {target}", "upper 2", "lower 2"]
+            for c in ALPHA + [0x41, 0]:
+                h += [f"sFindC {subj} {c}", f"sFindLastC {subj} {c}"]
+            h += [f"hash {target}", f"toBool {target}", f"assign 2 {target}", "upper 2", "lower 2", f"sLength {subj}",
+                  f"fromCStr 2 {subj}", f"fromCStrN 2 {subj}", f"isEmpty {target}", f"capacity {target}", f"eqLit {target} 0",
+                  f"neLit {target} 0", f"plus 2 {target} {target}", f"plusLit 2 {target} 1", f"assign 2 {target}", "trimD 2",
+                  f"splitD {target} 2f20", f"substr1 2 {target} 1", f"substr1 2 {target} -1"]
             hs.append(h)
     return hs
 
@@ -516,7 +623,7 @@ def gen_history(rng, length):
         elif k < 0.82: op = f"join {v} {rng.choice([47, 32, 44])}"
         elif k < 0.85: op = f"replaceS {v} {w} {w2}"
         elif k < 0.87: op = f"replaceL {v} {rand_bytes(rng, rng.choice([0, 1, 1, 2]), [0x61, 0x62, 0x2f, 0x20])} {rand_bytes(rng, rng.choice([0, 1, 2, 3]))}"
-        elif k < 0.89:
+        elif k < 0.885:
             items = []
             for _ in range(rng.randrange(1, 4)):
                 items.append("L" + rand_bytes(rng, rng.randrange(0, 3)))
@@ -534,6 +641,25 @@ def gen_history(rng, length):
                     elif kind == "S": out.append("S" + rand_bytes(rng, rng.choice([0, 1, 3, 8, 190, 199, 200, 201, 203, 204, 260]), [0x61, 0x62, 0x20, 0x80]))
                     else: out.append(f"C{rng.choice([97, 47, 255, 1])}")
             op = f"printf {v} " + " ".join(out)
+        elif k < 0.895:
+            j = rng.randrange(12)
+            if j == 0: op = f"plusEqS {v} {w}"
+            elif j == 1: op = f"plusEqC {v} {rng.choice([97, 47, 0x80])}"
+            elif j == 2: op = f"plus {v} {w} {w2}"
+            elif j == 3: op = f"plusLit {v} {w} {rng.randrange(2)}"
+            elif j == 4: op = f"fromCStr {v} {rand_bytes(rng, n)}"
+            elif j == 5: op = f"fromCStrN {v} {rand_bytes(rng, n)}"
+            elif j == 6: op = f"fromBool {v} {rng.randrange(2)}"
+            elif j == 7: op = rng.choice([f"fromInt {v} {rng.choice([0, -1, -2147483648, 2147483647, rng.randrange(-10**6, 10**6)])}",
+                                          f"fromInt64 {v} {rng.choice([0, -9223372036854775808, 9223372036854775807, rng.randrange(-10**12, 10**12)])}",
+                                          f"fromUInt {v} {rng.choice([0, 4294967295, rng.randrange(10**6)])}",
+                                          f"fromUInt64 {v} {rng.choice([0, 18446744073709551615, rng.randrange(10**15)])}"])
+            elif j == 8: op = f"fromPrintf {v} L{rand_bytes(rng, 2)} S{rand_bytes(rng, rng.choice([0, 3, 197, 198, 199, 200, 201, 260]), [0x61, 0x62, 0x20])} D{rng.randrange(-99, 99)}"
+            elif j == 9: op = rng.choice([f"trimD {v}", f"substr1 {v} {w} {rng.randrange(-4, ln + 3)}", f"splitD {v} {arg}"])
+            elif j == 10: op = rng.choice([f"capacity {v}", f"isEmpty {v}", f"eqLit {v} {rng.randrange(2)}", f"neLit {v} {rng.randrange(2)}",
+                                           f"splitSet {v} {arg} {rng.randrange(2)}"])
+            else: op = rng.choice([f"{rng.choice(['ne', 'lt', 'le', 'gt', 'ge'])} {v} {x}", f"eqICN {v} {x} {rng.randrange(0, 6)}",
+                                   f"sStartsWith {rand_bytes(rng, rng.choice([0, 1, 2, 3]))} {x}"])
         elif k < 0.905: op = f"{rng.choice(QUERY1)} {v} {x}"
         elif k < 0.915: op = f"{rng.choice(['compareN', 'compareICN'])} {v} {x} {rng.randrange(0, 6)}"
         elif k < 0.93: op = f"{rng.choice(['findC', 'findLastC'])} {v} {rng.choice([97, 98, 47, 32, 128, 65])}"
@@ -562,6 +688,44 @@ def special_histories():
     for n in (195, 199, 200, 201, 202, 203, 204, 207, 208, 300):
         s = hexs([0x61] * n)
         hs.append([f"printf 0 S{s}", "printf 0 L61 D1", f"ptr 1 {s}", f"printf 1 S{s} C47", "cap 2 250", f"printf 2 S{s} C47", "assign 3 2", f"printf 2 S{s} C47"])
+    for n in (0, 1, 197, 198, 199, 200, 201, 202, 203, 204, 205, 260, 450):
+        t = hexs([0x61] * n)
+        hs.append([f"fromPrintf 0 S{t}", "capacity 0", f"fromPrintf 1 S{t} C47", "assign 2 1", f"fromPrintf 1 L78 S{t}", "capacity 1",
+                   f"ptr 3 {t if n else '-'}", "assign 0 3", f"printf 3 S{t} C47", "capacity 3", f"printf 3 L78"])
+    hs.append(["fromInt 0 0", "fromInt 1 -2147483648", "fromInt 2 2147483647", "fromInt64 3 -9223372036854775808", "plus 0 1 2",
+               "fromInt64 0 9223372036854775807", "fromUInt 1 4294967295", "fromUInt64 2 18446744073709551615", "fromUInt 3 0",
+               "fromBool 0 1", "fromBool 1 0", "toBool 0", "toBool 1", "plus 2 0 1", "eqLit 0 0", "compare 0 1"])
+    chars = []
+    for c in range(256):
+        chars += [f"isSpace {c}", f"toLowerC {c}", f"toUpperC {c}"] + [f"ctype {k} {c}" for k in
+                  ("alnum", "alpha", "digit", "lower", "print", "punct", "upper", "xdigit")]
+    hs += [chars[i:i + 704] for i in range(0, len(chars), 704)]
+    hs += alias_histories()
+    return hs
+
+
+def alias_histories():
+    """own-pointer arguments of attach/printf where the library's behaviour is defined: the pointer points into memory
+    the String never owned (literal, attached range with a NUL behind it) or the block stays alive (shared) /
+    the string is empty"""
+    hs = []
+    for r in (0, 1, 3):
+        size = len(REGS[r]) - 1
+        for off in range(size + 1):
+            ln = size - off                      # the range ends at the NUL: the C string view does not detach
+            pre = [f"attach 0 {r} {off} {ln}"]
+            for o in range(ln + 1):
+                for n in range(ln - o + 1):
+                    hs.append(pre + [f"attachA 0 {o} {n}", "cstr 0", "appendC 0 47"])
+            hs.append(pre + ["printfA 0 3c 3e", "capacity 0"])
+            hs.append(pre + ["printfA 0 - -"])          # (a second printfA would run on an exclusively owned block:
+            hs.append(pre + ["printfA 0 61 -"])         #  the output buffer overlaps the argument — undefined, the model faults)
+    hs.append(["lit 0 0", "attachA 0 0 2", "attachA 0 1 1", "printfA 0 3c 3e"])
+    hs.append(["new 0", "attachA 0 0 0", "printfA 0 3c 3e"])
+    for n in (1, 3, 150, 199, 200, 203, 204, 300):
+        t = hexs([0x62] * n)
+        hs.append([f"ptr 0 {t}", "assign 1 0", "printfA 0 3c 3e", "capacity 0"])      # shared: the old block stays alive
+        hs.append([f"ptr 0 {t}", "copy 1 0", "copy 2 0", "printfA 1 - 2f", "printfA 2 2f -"])
     return hs
 
 
@@ -573,7 +737,7 @@ def boundary_histories(quick):
     hs, cov = [], {}
 
     def add(h, call, shared, delta):
-        hs.append(h)
+        hs.append(h + ["capacity 0"])
         k = f"{call}:{'shared' if shared else 'excl'}:need-cap={delta:+d}"
         cov[k] = cov.get(k, 0) + 1
 
